@@ -8,7 +8,7 @@ HOOKS = {
     "add_only": True,
 }
 ENGINES = [
-    {"name": "verus", "path": "bin/check", "serves_properties": ["C01", "C02", "C03", "C04"],
+    {"name": "verus", "path": "bin/check", "serves_properties": ["C01", "C02", "C03", "C04", "C05"],
      "kind_free_text": "contract templates (specs/*.vrs) whose holes are filled with the real items/function bodies of /repo by the vx extractor on every run; Verus 0.2026.09.13 (Z3) discharges every obligation"},
 ]
 NOTES = ("Technique family: contract-based deductive verification of the real code. exit 2 = undecided (lost anchor, unsupported construct, "
@@ -53,6 +53,17 @@ CLAIMS.update({
         "note": PUSH_NOTE, "design_ref": "DESIGN.md §4 L2/L3, §6 C03",
     },
 })
+CLAIMS["C05"] = {
+    "category": "proof", "engine": "verus",
+    "technique": "Verus: real recursive parser proved equal to a reference recursive-descent spec (with termination) + inductive lemmas (flatten == instructions, shape)",
+    "text": "For every gene sequence (any length / nesting) the real PushProgram::parse_from_plushy and From<Plushy> for Vec<PushProgram> terminate without "
+            "panic and produce exactly parse_seq(true, genes); lemmas prove that its depth-first reading is the genome's instruction sequence in order, that "
+            "each instruction opening k blocks is immediately followed by exactly k blocks, that Close ends the innermost block / is ignored at top level, and "
+            "that open blocks are closed at the end.",
+    "note": "Trusted: vstd's model of vec::IntoIter plus one axiom (exhausted iterator has measure 0) used only for the decreases argument. The generic "
+            "`impl Iterator<Item = PushGene>` parameter is instantiated at std::vec::IntoIter<PushGene> (what From<Plushy> passes).",
+    "design_ref": "DESIGN.md §4 parser, §6 C05",
+}
 NOT_APPLICABLE = {
     "C09": "generation step: rayon worker threads and the thread-local OS-seeded rand::rng() inside par_next/serial_next are outside both installed verifiers (Kani: no threads/getrandom; Verus: no model); the remaining repository code is one collect::<Result<_,_>>() expression whose all-or-nothing behaviour is std's contract (DESIGN.md §7)",
 }
